@@ -151,3 +151,6 @@ package fox
 //@   ensures fresh-roots: fresh(t.root)
 //@   loop 1: invariant fresh(nr)
 //@   loop 2: invariant fresh(nr#2)
+
+//@ extern countRoutes
+//@   ensures result >= 0
